@@ -147,6 +147,10 @@ impl LocalCollector {
         }
     }
 
+    pub(crate) fn is_noop(&self) -> bool {
+        self.inner.is_none()
+    }
+
     pub(crate) fn collect_spans_and_token(mut self) -> (LocalSpansInner, Option<CollectToken>) {
         let (spans, collect_token) = self
             .inner
